@@ -198,6 +198,14 @@ func genC20(r *rand.Rand, t *Trace, thorough bool) {
 				}
 			}
 		}
+		var sibling comet.Quantizer
+		if r.Intn(3) == 0 {
+			// another quantiser of the same kind, made and trained just before: what one instance has learned
+			// is its own (an untrained one made afterwards still refuses to work)
+			sibling, _ = comet.NewQuantizer([]comet.QuantizerType{comet.FullPrecision, comet.HalfPrecision, comet.Int8Precision}[ty])
+			sibling.Train([][]float32{{7, -3}})
+			t.Stat("quant.sibling_instance_trained")
+		}
 		qz, _ := comet.NewQuantizer([]comet.QuantizerType{comet.FullPrecision, comet.HalfPrecision, comet.Int8Precision}[ty])
 		if r.Intn(3) == 0 {
 			// trained before, on something else (larger, smaller, or nothing at all): the LAST training is the
@@ -229,6 +237,9 @@ func genC20(r *rand.Rand, t *Trace, thorough bool) {
 				q8.SetAbsMax(absMax)
 				t.Stat("quant.int8_restored_over_trained")
 			}
+		}
+		if sibling != nil {
+			sibling.Train([][]float32{{1000}}) // ... and what the sibling learns later is not this one's business
 		}
 		orig := cloneVec(v)
 		stored, err := qz.Quantize(v)
